@@ -41,7 +41,7 @@ GEN_NOTE = (
 
 PROPS = {
     "C01": dict(
-        require_observed=['multi_section', 'zero_length', 'at_chrom_end', 'huge_chrom', 'ips_65535'],
+        require_observed=['multi_section', 'zero_length', 'at_chrom_end', 'huge_chrom', 'ips_65535', 'chroms_gt_256', 'heavy_chromosomes'],
         level="exploration",
         floor=50,
         builds=["harness"],
